@@ -1,5 +1,6 @@
 import Zc.Proofs.QueueRun
 import Zc.Proofs.Classify
+import Zc.Proofs.Response
 /-! # C12 — reply timing: jitter, aggregation, one-second protection, truncated queries
 
 Numbers in the statements (20, 120, 500, 1000, 1020, 1200, 400) come from the English property;
@@ -243,6 +244,91 @@ theorem C12_one_sec_timing {c0 : Int} {evs : List QEv} {q' : Queue} {c' : Int} {
   intro o ho r hr
   obtain ⟨a, ha, h1, _, h3, h4⟩ := C12_window_protected h o ho r hr
   exact ⟨a, ha, h1, fun hc => by omega, h4⟩
+
+/-- "answered in the arrival block": whatever `async_response` put into `_mcast_now` (and `_ucast`)
+is sent by `handle_assembled_query` itself — in the block in which the query is handled — as one
+multicast datagram; the listener's state is untouched and each queue receives at most one `add`
+stamped with the first packet's arrival, with a draw in 20..120 ms. -/
+theorem C12_immediate_block {h : Host} {clock : Int} {pkts : List Pkt} {addr port : Nat} {seen : SeenMap} {draws : List Int}
+    {r : StepOut} {rest : List Int} (hs : h.assemble clock pkts addr port seen draws = .ok (r, rest))
+    {qa : QA} (hqa : asyncResponse pkts (Gen.Reply.ucast_source port) seen = some qa) :
+    (qa.mcastNow.isEmpty = false → Out.ofMcast qa.mcastNow ∈ r.outs) ∧
+    (∀ o ∈ r.outs, ∀ a b, o = Out.mcast a b → o = Out.ofMcast qa.mcastNow) ∧
+    ∃ first, pkts.head? = some first ∧
+      (r.host.outQ = h.outQ ∨ ∃ d, 20 ≤ d ∧ d ≤ 120 ∧ r.host.outQ = h.outQ.add outQP clock first.now d qa.mcastAgg) ∧
+      (r.host.delayQ = h.delayQ ∨ ∃ d, 20 ≤ d ∧ d ≤ 120 ∧ r.host.delayQ = h.delayQ.add delayQP clock first.now d qa.mcastLast) := by
+  obtain ⟨first, hf, ho, _, hq1, hq2⟩ := assemble_spec hs hqa
+  have e1 := drawLo_eq; have e2 := drawHi_eq
+  refine ⟨?_, ?_, first, hf, ?_, ?_⟩
+  · intro hne; rw [ho]; simp [immediateOuts, hne]
+  · intro o hmem a b hob
+    rw [ho] at hmem
+    simp only [immediateOuts, List.mem_append] at hmem
+    rcases hmem with hmem | hmem
+    · split at hmem
+      · cases hmem
+      · simp at hmem; rw [hmem] at hob; cases hob
+    · split at hmem
+      · cases hmem
+      · simpa using hmem
+  · rcases hq1 with h1 | ⟨d, h1, h2, h3⟩
+    · exact Or.inl h1
+    · exact Or.inr ⟨d, by omega, by omega, h3⟩
+  · rcases hq2 with h1 | ⟨d, h1, h2, h3⟩
+    · exact Or.inl h1
+    · exact Or.inr ⟨d, by omega, by omega, h3⟩
+
+/-! ## C12_tc — truncated queries -/
+
+/-- A truncated packet is not answered in its own block: it is stored, any timer of the same source
+address is cancelled, and exactly one timer for that address is armed, due 400–500 ms after this
+packet (the draw `d` is the one `takeDraw tcLo tcHi` accepted); timers of other addresses are
+untouched. -/
+theorem C12_tc_hold (l : Listener) (t : Int) (addr port : Nat) (p : Pkt) {draws : List Int} {d : Int} {rest : List Int}
+    (hd : takeDraw tcLo tcHi draws = .ok (d, rest)) :
+    (∃ tm, (l.defer t addr port p d).timers.filter (fun x => x.addr == addr) = [tm] ∧ t + 400 ≤ tm.due ∧ tm.due ≤ t + 500) ∧
+    (∀ a, a ≠ addr → (l.defer t addr port p d).timers.filter (fun x => x.addr == a) = l.timers.filter (fun x => x.addr == a)) := by
+  obtain ⟨h1, h2, _⟩ := takeDraw_ok hd
+  have e1 := tcLo_eq; have e2 := tcHi_eq
+  refine ⟨⟨_, Listener.defer_timer l t addr port p d, ?_, ?_⟩, fun a ha => Listener.defer_other l t addr port p d a ha⟩ <;>
+    (simp only; omega)
+
+/-- When the timer fires (or an untruncated packet of the same source arrives: `msg = some _`) **all**
+deferred packets of the address are answered by one `handle_assembled_query`, after which nothing is
+deferred and no timer is armed for the address: each packet is answered once. -/
+theorem C12_tc_once {h : Host} {clock : Int} {msg : Option Pkt} {addr port : Nat} {seen : SeenMap} {draws : List Int}
+    {r : StepOut} {rest : List Int} (hs : h.respond clock msg addr port seen draws = .ok (r, rest)) :
+    ({ h with lis := (h.lis.cancelTimer addr).popDeferred addr } : Host).assemble clock
+        (h.lis.deferredOf addr ++ msg.toList) addr port seen draws = .ok (r, rest) ∧
+    (r.host.lis.deferredOf addr = [] ∧ r.host.lis.timers.filter (fun x => x.addr == addr) = []) := by
+  have ha := respond_spec hs
+  refine ⟨ha, ?_⟩
+  have hl : r.host.lis = (h.lis.cancelTimer addr).popDeferred addr := by
+    cases hqa : asyncResponse (h.lis.deferredOf addr ++ msg.toList) (Gen.Reply.ucast_source port) seen with
+    | none => rw [(assemble_none ha hqa).2]
+    | some qa => obtain ⟨_, _, _, hlis, _⟩ := assemble_spec ha hqa; exact hlis
+  rw [hl]
+  exact ⟨Listener.popDeferred_deferredOf _ _, by
+    simpa [Listener.popDeferred] using Listener.cancelTimer_none h.lis addr⟩
+
+/-- ... using the union of all their known answers: every record the assembled reply hands out —
+unicast, at once, aggregated or protected — is a candidate answer of a question of one of the
+packets that **no** known answer of **any** (non-probe) packet of the train suppresses. -/
+theorem C12_tc_union {pkts : List Pkt} {us : Bool} {seen : SeenMap} {qa : QA}
+    (h : asyncResponse pkts us seen = some qa) (r : RecId)
+    (hr : r ∈ qa.ucast.keys ∨ r ∈ qa.mcastNow.keys ∨ r ∈ qa.mcastAgg.keys ∨ r ∈ qa.mcastLast.keys) :
+    ∃ p ∈ pkts, ∃ it ∈ p.items, ∃ c ∈ it.cands, c.id = r ∧ suppresses (unionKnown pkts) c = false :=
+  asyncResponse_sources h r hr
+
+/-- what "suppresses" means: the record is one the known answers can suppress at all and the *last*
+known answer equal to it carries more than half its TTL -/
+theorem C12_suppresses_iff (known : List (RecId × Nat)) (c : Cand) :
+    suppresses known c = true ↔
+      c.sup = true ∧ ∃ k, known.reverse.find? (fun k => k.1 == c.id) = some k ∧ (c.ttl : Int) < 2 * (k.2 : Int) := by
+  unfold suppresses
+  cases hf : known.reverse.find? (fun k => k.1 == c.id) with
+  | none => simp
+  | some k => simp [GenFacts.rrset_suppresses]
 
 /-! ## non-vacuity: a concrete legal run in which both branches (merge, wait-for-send_before) occur -/
 
